@@ -355,7 +355,7 @@ func runProd(t *testing.T, tk []string) string {
 	// leader mover
 	stop := make(chan struct{})
 	var outage sim.LeaderOutage
-	if seed%4 == 1 {
+	if seed%4 == 1 || (closeat > 0 && seed%3 == 0) {
 		// a partition of "t" reports LEADER_NOT_AVAILABLE in metadata for a while (until the final Flush, or for good
 		// when the client is closed midway): records buffered for it wait for a leader, and every fail-everything
 		// path (Close, AbortBufferedRecords) must still reach them
